@@ -8,12 +8,25 @@
    The whole-program statements of C10 (re-indentation invariance, idempotence, indentation = width x
    depth) are evaluated by the extracted holds_C10 on real luafmt output (harness/props/c10.py); their
    proof at whole-writer level needs Model/AstWriter.v. *)
-From PV Require Import Base.Prelude Model.FmtSpaces Generated.T_fmtspaces Proofs.FmtSpacesProofs.
+From PV Require Import Base.Prelude Model.FmtSpaces Generated.T_fmtspaces Proofs.FmtSpacesProofs Proofs.FmtLinesProofs.
 
 (* the pipeline only moves white space: every other byte of the run (comment text) is kept, in order *)
 Theorem C10_run_keeps_comment_text : forall cfg r, nonws (fmt_run cfg r) = nonws r.
 Proof. exact fmt_run_nonws. Qed.
 Print Assumptions C10_run_keeps_comment_text.
+
+(* no line of the formatted run ends in a blank: nowhere in the output is a space followed by a line feed
+   (tabs and carriage returns are gone after the first four substitutions) *)
+Theorem C10_run_no_trailing_blank : forall cfg r, has_sp_nl (fmt_run cfg r) = false.
+Proof. exact fmt_run_no_trailing_blank. Qed.
+Print Assumptions C10_run_no_trailing_blank.
+
+(* the token that follows the run: when the run's output ends in a line feed followed only by
+   blanks, those blanks are exactly indentwidth x depth spaces *)
+Theorem C10_run_indent : forall cfg r p q, f_at_end cfg = false ->
+  fmt_run cfg r = p ++ NL :: q -> noNL q -> forallb is_sp q = true -> q = indent_bytes cfg.
+Proof. exact fmt_run_indent. Qed.
+Print Assumptions C10_run_indent.
 
 Example C10_nonvacuous_S17 :
   fmt_run (mk_fcfg false false 2 1) [NL; NL] = [NL; NL; SP; SP].
